@@ -30,6 +30,22 @@ type progCase struct {
 	Stdlib    bool   `json:"stdlib"`
 	NoDCE     bool   `json:"nodce"`
 	TimeoutMs int    `json:"timeout_ms"`
+	Weird     string `json:"weird"`    // module "weird": a custom Importable returning this kind of plain object
+	StateMod  bool   `json:"statemod"` // builtin module "st" with mutable container attributes
+}
+
+// addSpecialModules: embedder-supplied modules beyond source modules and stdlib
+func addSpecialModules(mm *tengo.ModuleMap, pc *progCase) {
+	if pc.Weird != "" {
+		mm.Add("weird", weirdImportable{pc.Weird})
+	}
+	if pc.StateMod {
+		mm.AddBuiltinModule("st", map[string]tengo.Object{
+			"counter": &tengo.Map{Value: map[string]tengo.Object{"n": &tengo.Int{Value: 0}}},
+			"log":     &tengo.Array{Value: []tengo.Object{}},
+			"step":    &tengo.Int{Value: 1},
+		})
+	}
 }
 
 var atRe = regexp.MustCompile(`(?m)^\tat (?:(.*):)?(\d+):(\d+)`)
@@ -230,6 +246,7 @@ func buildScript(pc *progCase) (*tengo.Script, map[string]string, error) {
 		mm.AddSourceModule(m.Name, []byte(m.Src))
 		files[m.Name] = m.Src
 	}
+	addSpecialModules(mm, pc)
 	s.SetImports(mm)
 	if pc.MaxAllocs != nil {
 		s.SetMaxAllocs(*pc.MaxAllocs)
